@@ -26,6 +26,14 @@ CHECKS = {
         text="Solver-decided over bounded worlds, not a proof. CLI MIR as C14/C15: every library call receives Config{max_width: column, tab_spaces: tab_width, reorder_import_items: flag, blank_lines_upper_bound: 2} for all 64-bit values; in stdout mode the stdout writes are exactly print!(\"{}\", F(c_i)) (c_i itself if erroneous) for readable inputs in argument order and nothing else; in-place/format-all write F(c_i). Library MIR: format_with_width(c,w) = F(c, Config{max_width:w, defaults}) or c if erroneous; format_content/format_source funnel into format_source_inspect. Counterexamples replayed by comparing the real binary's output with the library's output (native driver) for the same options.",
         note="Trusted: as C14; F uninterpreted - that all front-ends compute the same F rests on the structural fact that they all call Typstyle::format_source_inspect/format_content (checked in the dump).",
         ref="DESIGN.md §5 C16"),
+    'C19': dict(
+        text="Solver-decided within bounds, not a proof. convert_import_items (+closures) and check_import_name_duplication are executed from MIR over every sequence of up to K nodes (3 quick / 4 thorough), each a plain item (1-2 identifier path), a renamed item, or any other node kind (symbolic), identifier texts symbolic; the list stylist is opaque but records the sequence it receives. z3 decides: flag off => sequence unchanged; flag on => a permutation, unchanged whenever a comment is present or two items bind the same name, otherwise sorted by item text. Config::default has the flag off and StyleArgs::to_config passes the CLI flag through (real MIR); the option is read nowhere else (structural, same dump).",
+        note="Trusted: mirsym encoder; contracts for sort_by_key (stable sort by key), HashSet insert, typst-syntax accessors; the list stylist prints items in the order received (not decided here). Longer imports and identifier texts longer than 1 character are outside the bound.",
+        ref="DESIGN.md §5 C19"),
+    'C08': dict(
+        text="Solver-decided within bounds, not a proof; mechanism level. convert_space / convert_parbreak / convert_text with has_linebreak / count_linebreaks / repeat_n are executed from MIR over every whitespace token of up to N code points (3 quick / 4 thorough; each any White_Space scalar, so all newline characters Typst recognises): a Space token becomes a hard line break iff it holds a Typst newline, else one blank; a Parbreak with k newlines (CR LF once) becomes exactly k hard line breaks; Text is verbatim. Counterexamples are replayed as markup `a<ws>b` through format_content. Composition through nested markup, the parser and the renderer is not covered.",
+        note="Trusted: mirsym encoder; lexer facts about whitespace tokens (stated in assumptions); Doc algebra contracts; typst_syntax::is_newline contract (validated natively at setup).",
+        ref="DESIGN.md §5 C08"),
 }
 
 NOT_APPLICABLE = {
